@@ -1,0 +1,17 @@
+// Verification hooks (deterministic simulation); compiled only with `--cfg maidsafe_safe_network_verif`.
+
+use crate::client::Client;
+use ant_evm::EvmNetwork;
+use ant_networking::Network;
+use std::sync::Arc;
+
+impl Client {
+    /// Build a client around a `Network` whose `SwarmDriver` is driven by an external simulator.
+    pub fn verif_from_network(network: Network, evm_network: EvmNetwork) -> Self {
+        Self {
+            network,
+            client_event_sender: Arc::new(None),
+            evm_network,
+        }
+    }
+}
